@@ -8,6 +8,12 @@ source_for(const std::string &profile, const std::string &prop, int tier)
         CaseSource s;
         ProfileCfg pc = profile_by_name(profile, prop, tier);
         s.make = [pc](uint64_t run_seed, uint64_t) { return gen_plan(pc, run_seed); };
+        if (profile == "entry")
+                s.make = [pc](uint64_t run_seed, uint64_t) { return gen_plan_entry(pc, run_seed); };
+        if (profile == "keyprep")
+                s.make = [pc](uint64_t run_seed, uint64_t) { return gen_plan_keyprep(pc, run_seed); };
+        if (profile == "sgl")
+                s.make = [pc](uint64_t run_seed, uint64_t) { return gen_plan_sgl(pc, run_seed); };
 
         if (profile == "indep") {
                 // C17: each task's history must equal the history of the same task run alone
@@ -40,7 +46,7 @@ source_for(const std::string &profile, const std::string &prop, int tier)
                         for (size_t i = 0; i < p.ops.size(); i++)
                                 if (p.ops[i].kind == OP_REINIT)
                                         last = (int) i;
-                        if (last < 0 || !r.viols.empty())
+                        if (last < 0)
                                 return;
                         Plan q;
                         q.seed = p.seed;
